@@ -1,12 +1,12 @@
 package main
 
 import (
-	"strconv"
 	"context"
 	"fmt"
 	"github.com/celestiaorg/go-header/p2p"
 	"github.com/libp2p/go-libp2p/core/network"
 	"os"
+	"strconv"
 	"strings"
 	"time"
 
